@@ -40,6 +40,23 @@ theorem overlay_source_wins {E : Type} (isDir : E → Bool) (s d : TMap E) (unde
     (p : Path) (e : E) (h : s p = some e) : overlay isDir s d under anc p = some e := by
   simp [overlay, h]
 
+/-- Landing rule (the executable reference uses exactly this predicate): a source directory lands inside an existing
+destination under its own name unless directory-contents mode is on … -/
+theorem dir_into_existing (cdc destIsDir : Bool) : C.landsInside cdc true true destIsDir = !cdc := by
+  cases cdc <;> cases destIsDir <;> rfl
+
+/-- … a non-directory copied to an existing directory lands inside it (either mode) … -/
+theorem file_into_existing_dir (cdc : Bool) : C.landsInside cdc false true true = true := by
+  cases cdc <;> rfl
+
+/-- … a non-directory copied onto an existing non-directory replaces it (lands on the name itself) … -/
+theorem file_onto_existing_file (cdc : Bool) : C.landsInside cdc false true false = false := by
+  cases cdc <;> rfl
+
+/-- … and a destination that does not exist yet is the name the source gets. -/
+theorem new_destination_is_the_name (cdc srcIsDir destIsDir : Bool) : C.landsInside cdc srcIsDir false destIsDir = false := by
+  cases cdc <;> cases srcIsDir <;> cases destIsDir <;> rfl
+
 /-- the working-tree primitives of the executable reference are idempotent -/
 theorem upsert_idem (t : List C.Node) (n : C.Node) : (C.upsert (C.upsert t n) n).map (·.path) = (C.upsert t n).map (·.path) := by
   unfold C.upsert
